@@ -91,10 +91,22 @@ func (e *Eng) hashOf(in SliceVal) []*Term {
 		for i := 0; i < 32; i++ {
 			eqs = append(eqs, tb.Eq(out[i], prev.out[i]))
 		}
+		outEq := tb.And(eqs...)
+		if in.Len.IsConst() && prev.in.Len.IsConst() && in.Len.C <= 1<<14 {
+			// equal concrete lengths: state both directions exactly (functional consistency and
+			// collision resistance) position by position; most equalities fold away
+			var same []*Term
+			for i := uint64(0); i < in.Len.C; i++ {
+				ci := tb.Const(64, i)
+				same = append(same, tb.Eq(e.sliceAt(in, ci), e.sliceAt(prev.in, ci)))
+			}
+			e.assertPC(tb.Eq(outEq, tb.And(same...)))
+			continue
+		}
 		k := tb.Var(fmt.Sprintf("hk!%d!%d", n, j), 64)
 		differ := tb.Or(tb.BNot(tb.Eq(in.Len, prev.in.Len)),
 			tb.And(tb.Ult(k, in.Len), tb.BNot(tb.Eq(e.sliceAt(in, k), e.sliceAt(prev.in, k)))))
-		e.assertPC(tb.Or(tb.And(eqs...), differ))
+		e.assertPC(tb.Or(outEq, differ))
 	}
 	p.hashes = append(p.hashes, app)
 	return out
